@@ -1041,11 +1041,183 @@ impl TypedScenario for C09Sync {
     }
 }
 
+// ---- termination before the session exists ---------------------------------------------------------
+
+/// The peer closes the QUIC connection (code, reason) while the session is still being set up:
+/// `stage` 0 right after the QUIC handshake, 1 after its control stream and SETTINGS, 2 after
+/// the CONNECT request is on the wire (server under test: the application then waits before it
+/// accepts). Whatever call of the set-up is pending or made next names the peer's close.
+#[derive(Serialize, Deserialize, Clone, Debug)]
+pub struct EarlyPlan {
+    pub seed: u64,
+    pub rt: RtKnobs,
+    pub net: NetCfg,
+    pub server_under_test: bool,
+    pub stage: u8,
+    pub code: u64,
+    pub reason_hex: String,
+}
+
+pub fn exec_early(plan: &EarlyPlan, trace: bool) -> Exec {
+    use crate::rawpeer as rp;
+    let mut ex = Exec::new();
+    let plan = Arc::new(plan.clone());
+    let p2 = plan.clone();
+    let netslot: Arc<Mutex<Option<SimNet>>> = Arc::new(Mutex::new(None));
+    let ns2 = netslot.clone();
+    let out = simrt::run(&plan.rt, plan.seed, Duration::from_secs(300), move || async move {
+        let plan = p2;
+        let net = SimNet::new(plan.net.clone(), trace);
+        *ns2.lock().unwrap() = Some(net.clone());
+        let mut r = Rng::new(plan.seed, "c09-early");
+        let k = EpKnobs::default();
+        let reason = harness::unhex(&plan.reason_hex);
+        // what the set-up calls of the endpoint under test reported, in order
+        let mut reports: Vec<(String, String)> = Vec::new();
+        if plan.server_under_test {
+            let s = sut::sut_server(&net, &k, &mut r);
+            let (rep, _rs) = rp::raw_client_endpoint(&net, rp::RAW_CLIENT_ADDR.parse().unwrap(), sut::raw_transport(), r.seed32(), b"h3");
+            let sep = s.ep;
+            let app = tokio::spawn(async move {
+                let mut rep: Vec<(String, String)> = Vec::new();
+                let inc = sep.accept().await;
+                match tokio::time::timeout(Duration::from_secs(60), inc).await {
+                    Err(_) => rep.push(("incoming_session".into(), "pending 60 s".into())),
+                    Ok(Err(e)) => rep.push(("incoming_session".into(), format!("{e:?}"))),
+                    Ok(Ok(req)) => {
+                        // the application takes its time; the peer is gone when it accepts
+                        tokio::time::sleep(Duration::from_millis(500)).await;
+                        match tokio::time::timeout(Duration::from_secs(60), req.accept()).await {
+                            Err(_) => rep.push(("accept".into(), "pending 60 s".into())),
+                            Ok(Err(e)) => rep.push(("accept".into(), format!("{e:?}"))),
+                            Ok(Ok(conn)) => {
+                                let e = tokio::time::timeout(Duration::from_secs(60), conn.accept_bi()).await;
+                                rep.push(("accept_bi".into(), format!("{:?}", e.map(|x| x.map(|_| ())))));
+                            }
+                        }
+                    }
+                }
+                (rep, sep)
+            });
+            let conn = rep.connect(s.addr, "localhost").map_err(|e| format!("{e:?}"))?.await.map_err(|e| format!("raw handshake: {e:?}"))?;
+            let mut keep: Vec<Box<dyn std::any::Any + Send>> = Vec::new();
+            if plan.stage >= 1 {
+                keep.push(Box::new(rp::open_control(&conn, &rc::default_peer_settings()).await?));
+            }
+            if plan.stage >= 2 {
+                let (mut rs, rr) = conn.open_bi().await.map_err(|e| format!("{e:?}"))?;
+                rp::write_all(&mut rs, &rc::headers_frame(&rc::connect_request_fields("10.0.0.1:4433", "/early"), rc::EncStyle::PlainLiteral)).await?;
+                keep.push(Box::new((rs, rr)));
+            }
+            net.quiesce(Duration::from_millis(20), Duration::from_secs(5)).await;
+            conn.close(quinn_varint(plan.code), &reason);
+            let (rep2, _sep) = app.await.map_err(|e| format!("{e:?}"))?;
+            reports = rep2;
+            drop(keep);
+        } else {
+            let (rep, _rs) = rp::raw_server_endpoint(&net, rp::RAW_SERVER_ADDR.parse().unwrap(), sut::raw_transport(), r.seed32());
+            let c = sut::sut_client(&net, &k, &mut r);
+            let cep = c.ep;
+            let app = tokio::spawn(async move {
+                let res = tokio::time::timeout(Duration::from_secs(60), cep.connect(format!("https://{}/early", rp::RAW_SERVER_ADDR))).await;
+                let rep = match res {
+                    Err(_) => ("connect".to_string(), "pending 60 s".to_string()),
+                    Ok(Err(e)) => ("connect".to_string(), format!("{e:?}")),
+                    Ok(Ok(_)) => ("connect".to_string(), "Ok".to_string()),
+                };
+                (vec![rep], cep)
+            });
+            let inc = rep.accept().await.ok_or("raw endpoint closed")?;
+            let conn = inc.await.map_err(|e| format!("raw accept: {e:?}"))?;
+            let mut keep: Vec<Box<dyn std::any::Any + Send>> = Vec::new();
+            if plan.stage >= 1 {
+                keep.push(Box::new(rp::open_control(&conn, &rc::default_peer_settings()).await?));
+            }
+            if plan.stage >= 2 {
+                // wait for the client's request, answer nothing
+                if let Ok(Ok(x)) = tokio::time::timeout(Duration::from_secs(30), conn.accept_bi()).await {
+                    keep.push(Box::new(x));
+                }
+            }
+            net.quiesce(Duration::from_millis(20), Duration::from_secs(5)).await;
+            conn.close(quinn_varint(plan.code), &reason);
+            let (rep2, _cep) = app.await.map_err(|e| format!("{e:?}"))?;
+            reports = rep2;
+            drop(keep);
+        }
+        Ok::<_, String>(reports)
+    });
+    sut::finish_exec(&mut ex, &netslot, trace);
+    if !out.panics.is_empty() {
+        ex.violation("C09/panic", out.panics.join(" | "));
+        return ex;
+    }
+    match out.value {
+        None => ex.violation("C09/run-did-not-finish", "exceeded 300 s simulated".into()),
+        Some(Err(e)) => ex.violation("C09/setup", e),
+        Some(Ok(reports)) => {
+            ex.nontrivial = !reports.is_empty();
+            ex.fault("termination:peer_close_before_session", 1);
+            let who = if plan.server_under_test { "server" } else { "client" };
+            let want_code = format!("code: {}", plan.code);
+            let want_reason = format!("{:?}", harness::unhex(&plan.reason_hex));
+            for (call, got) in &reports {
+                if got.contains("pending 60 s") {
+                    ex.violation("C09/pending-call-hangs", format!("{who}: peer closed ({}, {} reason bytes) at set-up stage {}; {call} was still pending 60 s later", plan.code, plan.reason_hex.len() / 2, plan.stage));
+                    return ex;
+                }
+                let names_peer = got.contains("ApplicationClosed") && got.contains(&want_code) && got.contains(&want_reason);
+                if !names_peer {
+                    ex.violation(
+                        "C09/misattributed",
+                        format!("{who}: the peer closed the connection with code {} and reason {want_reason} at set-up stage {}; {call} reported {got}", plan.code, plan.stage),
+                    );
+                    return ex;
+                }
+            }
+        }
+    }
+    ex
+}
+
+pub struct C09Early;
+
+impl TypedScenario for C09Early {
+    type Plan = EarlyPlan;
+    fn name(&self) -> &'static str {
+        "raw-early-termination"
+    }
+    fn budget(&self, tier: Tier) -> usize {
+        match tier {
+            Tier::Quick => 1500,
+            Tier::Thorough => 150_000,
+        }
+    }
+    fn generate(&self, seed: u64, index: usize, _tier: Tier) -> EarlyPlan {
+        let mut rng = Rng::new(seed, "c09-earlyplan");
+        let mut net = NetCfg::clean(rng.next_u64());
+        net.lat_min_us = *rng.pick(&[200u64, 1_000, 5_000]);
+        let rl = *rng.pick(&[0usize, 3, 100]);
+        EarlyPlan {
+            seed,
+            rt: RtKnobs::from_rng(&mut rng),
+            net,
+            server_under_test: index % 2 == 0,
+            stage: ((index / 2) % 3) as u8,
+            code: *rng.pick(&[0u64, 1, 77, 0x100, 0x10c, (1 << 62) - 1]),
+            reason_hex: harness::hex(&rng.bytes(rl)),
+        }
+    }
+    fn execute(&self, plan: &EarlyPlan, trace: bool) -> Exec {
+        exec_early(plan, trace)
+    }
+}
+
 pub fn def() -> PropertyDef {
     PropertyDef {
         id: "C09",
-        scenarios: vec![Box::new(Typed(C09E2E)), Box::new(Typed(C09Raw)), Box::new(Typed(C09Sync))],
-        rule: "e2e-termination: real client and server; the observer (either role) has a battery of calls pending over 1-3 cloned handles - accept_uni x2, accept_bi, receive_datagram x2, closed, read on a stream that never gets data, write_all of 2 MiB against a full window, stopped, and (half of the runs) open_uni blocked on stream credit - when, at a generated instant, one of seven causes ends the connection: peer close(code, reason), local close, black hole in both directions, inbound-only cut, peer endpoint closed, local endpoint closed, peer drops every handle. Oracle: every pending call completes within 30 s simulated of the cause (idle timeout + 30 s for the black-hole causes, 10 s for dropped handles) and a second battery of 12 fresh calls (accepts, opens, send_datagram, closed, write / finish / stopped / read on held streams) each returns within 5 s; no call succeeds after the cause; each connection-level error is in allowed(cause): the peer's exact code and reason, LocallyClosed for local causes or where the library shut the transport down in response, TimedOut for black holes; stream-level calls report NotConnected; no two different local protocol errors; no panic in any task (process-wide panic hook); after the peer drops every handle its node transmits nothing in a 60 s window following a 3 s drain. raw-termination: same battery on the endpoint under test against a scripted raw peer, causes: close capsule, clean FIN, six protocol violations (DATA on control, second SETTINGS, control FIN, CONNECT stream reset, WebTransport stream with an invalid session id, datagram with an out-of-range quarter id), raw QUIC close; optionally a peer stream stalled mid-preamble, the peer's QPACK encoder / decoder streams open, and 1-4 further valid CONNECT requests left open on the same connection (server under test); and runs in which the application drops every handle and the raw peer must see the connection closed within 10 s. unit-sync: shared_result and bichannel (through the cfg hook) under a seeded executor that picks the next runnable task itself (random and PCT-style priorities) and cancels tasks at chosen polls: exactly one set() wins, every result() that returns equals the winner (None only when nobody set), uncancelled readers all return, closed() resolves once every getter is gone; bichannel delivers every sent value exactly once, in per-sender order, across receiver cancellation. Non-trivial = at least 6 pending calls (E2E) / every run (others); distinct = distinct plan hashes.",
+        scenarios: vec![Box::new(Typed(C09E2E)), Box::new(Typed(C09Raw)), Box::new(Typed(C09Sync)), Box::new(Typed(C09Early))],
+        rule: "e2e-termination: real client and server; the observer (either role) has a battery of calls pending over 1-3 cloned handles - accept_uni x2, accept_bi, receive_datagram x2, closed, read on a stream that never gets data, write_all of 2 MiB against a full window, stopped, and (half of the runs) open_uni blocked on stream credit - when, at a generated instant, one of seven causes ends the connection: peer close(code, reason), local close, black hole in both directions, inbound-only cut, peer endpoint closed, local endpoint closed, peer drops every handle. Oracle: every pending call completes within 30 s simulated of the cause (idle timeout + 30 s for the black-hole causes, 10 s for dropped handles) and a second battery of 12 fresh calls (accepts, opens, send_datagram, closed, write / finish / stopped / read on held streams) each returns within 5 s; no call succeeds after the cause; each connection-level error is in allowed(cause): the peer's exact code and reason, LocallyClosed for local causes or where the library shut the transport down in response, TimedOut for black holes; stream-level calls report NotConnected; no two different local protocol errors; no panic in any task (process-wide panic hook); after the peer drops every handle its node transmits nothing in a 60 s window following a 3 s drain. raw-termination: same battery on the endpoint under test against a scripted raw peer, causes: close capsule, clean FIN, six protocol violations (DATA on control, second SETTINGS, control FIN, CONNECT stream reset, WebTransport stream with an invalid session id, datagram with an out-of-range quarter id), raw QUIC close; optionally a peer stream stalled mid-preamble, the peer's QPACK encoder / decoder streams open, and 1-4 further valid CONNECT requests left open on the same connection (server under test); and runs in which the application drops every handle and the raw peer must see the connection closed within 10 s. raw-early-termination: the raw peer closes the QUIC connection (code, reason) while the session is being set up - right after the handshake, after its SETTINGS, or after the CONNECT request is on the wire - and the pending set-up call (incoming session, SessionRequest::accept made 500 ms later, connect) must end within 60 s naming exactly that code and reason. unit-sync: shared_result and bichannel (through the cfg hook) under a seeded executor that picks the next runnable task itself (random and PCT-style priorities) and cancels tasks at chosen polls: exactly one set() wins, every result() that returns equals the winner (None only when nobody set), uncancelled readers all return, closed() resolves once every getter is gone; bichannel delivers every sent value exactly once, in per-sender order, across receiver cancellation. Non-trivial = at least 6 pending calls (E2E) / every run (others); distinct = distinct plan hashes.",
         assumptions: vec![
             "bounds are in simulated seconds and generous; liveness is only demanded after the cause",
             "current-thread runtime / hand-written executor: data races inside tokio primitives are out of scope",
